@@ -259,6 +259,8 @@ class VLoop(asyncio.BaseEventLoop):
         self.transports = []
         self.listeners = {}                 # addr -> VServer
         self.connect_log = []               # (kind, addr, ok)
+        self.pending_connects = []          # (host, port, future) of connects held back by slow_connect
+        self.slow_connect = None
         self.exc_log = []
         self.n_steps = 0
         self.n_handles = 0
@@ -349,6 +351,11 @@ class VLoop(asyncio.BaseEventLoop):
             raise NotImplementedError('create_connection(sock=)')
         infos = await self.getaddrinfo(host, port)
         addr = infos[0][4][:2]
+        if getattr(self, 'slow_connect', None) is not None and self.slow_connect(host, port):
+            # a connect that takes time: it completes when the harness says so (complete_connect)
+            fut = self.create_future()
+            self.pending_connects.append((host, port, fut))
+            await fut
         srv = self.listeners.get(addr) or self.listeners.get(('0.0.0.0', addr[1])) \
             or self.listeners.get(('', addr[1]))
         if srv is None or srv.closed:
@@ -364,6 +371,14 @@ class VLoop(asyncio.BaseEventLoop):
         self.call_soon(sproto.connection_made, st)
         cproto.connection_made(ct)
         return ct, cproto
+
+    def open_connects(self):
+        self.pending_connects = [c for c in self.pending_connects if not c[2].done()]
+        return self.pending_connects
+
+    def complete_connect(self, idx=0):
+        host, port, fut = self.open_connects().pop(idx)
+        fut.set_result(None)
 
     async def create_unix_connection(self, protocol_factory, path=None, *,
                                      sock=None, **kwargs):
